@@ -13,8 +13,8 @@ def run(tier, wd):
     binpath = core.build_harness()
     rnd = random.Random(core.seed())
     q = tier == "quick"
-    alphabet = ["c1", "k1", "c2", "d1", "a1", "b1", "e2", "get", "x", "-f", "--", "-g"] if q else \
-               ["c1", "k1", "c2", "d1", "a1", "aa", "b1", "bb", "e1", "e2", "ee", "x", "-f", "--force", "-n=7", "--", "-g", "-"]
+    alphabet = ["c1", "k1", "c2", "d1", "a1", "b1", "e1", "get", "x", "-f", "--", "-v"] if q else \
+               ["c1", "k1", "c2", "d1", "a1", "aa", "b1", "bb", "e1", "e2", "ee", "x", "-f", "--force", "-n=7", "--", "-g", "-", "-v"]
     trs, rows = tc.run_tree(rep, wd, binpath, alphabet, 4, ["continue"], "c04")
     if not q:
         # longer vectors over a smaller alphabet
@@ -30,6 +30,15 @@ def run(tier, wd):
         for c, r in rows2:
             c["ti"] += off
         rows = rows + rows2
+    # a six-level tree with siblings at every level, explored with listed vectors (paths through aliases, help tokens at every
+    # position, behind --, after invalid arguments)
+    dt = T.deep_tree()
+    trs3, rows3 = tc.run_tree(rep, wd, binpath, alphabet, 1, sorted(set(c["policy"] for c, _ in rows)), "%s-deep" % PROP.lower(), trees=[dt])
+    off3 = len(trs)
+    trs = trs + trs3
+    for c, r in rows3:
+        c["ti"] += off3
+    rows = rows + rows3
     kinds = {}
     for c, r in rows:
         if r.get("skipped"):
